@@ -1,9 +1,16 @@
+"""C08 — Rewards add up to the documented objective; dense and sparse agree.  Driver over the per-environment sidecar contracts (contracts/<env>.py): keeps the clauses named C08.*"""
 from jxv import envdriver
+
+LEVEL = "proof"
+CONFIG_BOUND = "configurations listed in contracts/envs.py or in the contract module itself (small and adversarial: non-square, minimum sizes, >1 agents); values unbounded"
+NOT_VERIFIED = ["environments / clauses for which no C08 clause is present in the contract module (the evidence lists, per task, which clauses were discharged)",
+                "configurations outside the list"]
+ASSUMPTIONS = ["sampler contracts of jax.random (DESIGN.md section 5)", "induction over the episode from the per-step obligations (reset establishes Inv, step preserves it)"]
 
 
 def tasks(tier):
     return envdriver.tasks("C08", tier)
 
 
-LEVEL_TEXT = "wip"
-LEVEL_NOTE = "wip"
+LEVEL_TEXT = ("Proof by ghost return: for every listed configuration and ALL invariant states and legal actions, reward == partial_objective(s') - partial_objective(s) (dense) and reward == objective at LAST else 0 (sparse), so both returns telescope to the documented objective recomputed from the final state, hence dense == sparse on every legal trajectory (induction over the episode).")
+LEVEL_NOTE = ('real arithmetic (no rounding): equality of float32 returns with a float64 recomputation is NOT claimed; products of symbolic floats are a commutative uninterpreted function where stated; environments not covered are listed in not_verified.')
